@@ -15,7 +15,7 @@ def gen_config(rng, tier, versions=(0, 0, 1, 2), dims=(2, 2, 2, 3, 3, 4), bounda
         lmin, lmax = rng.choice([(2, 4), (1, 4), (3, 4), (3, 5)])      # high start levels / large level differences
     if d == 4:
         lmin, lmax = rng.choice([(1, 2), (2, 3)])
-    kind, a, b = hooks.gen_box(rng, d, ["unit", "unit", "shifted", "negative", "aniso", "dyadic", "tiny", "huge", "integer"])
+    kind, a, b = hooks.gen_box(rng, d, ["unit", "unit", "shifted", "negative", "aniso", "dyadic", "tiny", "huge", "integer", "integer"])
     cap = {2: 12, 3: 7, 4: 4}[d] if tier == "quick" else {2: 30, 3: 14, 4: 7}[d]
     cfg = {
         "d": d, "lmin": lmin, "lmax": lmax, "a": a, "b": b, "box": kind,
